@@ -14,6 +14,7 @@ import (
 	"strings"
 	"time"
 
+	"github.com/bluenviron/gohlslib/v2/internal/zzverif/vsched"
 	"github.com/bluenviron/gohlslib/v2/pkg/codecs"
 	"github.com/bluenviron/mediacommon/v2/pkg/codecs/h264"
 	"github.com/bluenviron/mediacommon/v2/pkg/codecs/mpeg4audio"
@@ -32,7 +33,7 @@ type paramSet struct {
 
 var h264Params = []paramSet{
 	{sps: []byte{0x67, 0x42, 0xc0, 0x28, 0xd9, 0x00, 0x78, 0x02, 0x27, 0xe5, 0x84, 0x00, 0x00, 0x03, 0x00, 0x04, 0x00, 0x00, 0x03, 0x00, 0xf0, 0x3c, 0x60, 0xc9, 0x20},
-		pps: []byte{0x68, 0x01}, width: 1920, height: 1080, fps: "30.000", codecStr: "avc1.42c028"},
+		pps: []byte{0x68, 0x01, 0x80}, width: 1920, height: 1080, fps: "30.000", codecStr: "avc1.42c028"}, // one byte longer than the PPS of the second set
 	// same stream with another level_idc (3.1 -> different SPS bytes, same geometry)
 	{sps: []byte{0x67, 0x42, 0xc0, 0x1f, 0xd9, 0x00, 0x78, 0x02, 0x27, 0xe5, 0x84, 0x00, 0x00, 0x03, 0x00, 0x04, 0x00, 0x00, 0x03, 0x00, 0xf0, 0x3c, 0x60, 0xc9, 0x20},
 		pps: []byte{0x68, 0x02}, width: 1920, height: 1080, fps: "30.000", codecStr: "avc1.42c01f"},
@@ -426,9 +427,17 @@ type respRec struct {
 }
 
 func (w *respRec) Header() http.Header { return w.Hdr }
+
+// respSlowClient makes WriteHeader a scheduling point of the controlled executions (a client that is slow to take the
+// response: other threads may run between the handler's WriteHeader and its Write). Set by the harnesses that want it.
+var respSlowClient bool
+
 func (w *respRec) WriteHeader(s int) {
 	if w.Status == 0 {
 		w.Status = s
+	}
+	if respSlowClient {
+		vsched.Yield("ResponseWriter.WriteHeader")
 	}
 }
 func (w *respRec) Write(p []byte) (int, error) {
